@@ -21,7 +21,7 @@ def related(prop, files):
         if 'generated_' in f or f.startswith('pre/'): add('C05')
         if f.startswith('io/'): add('C08', 'C09', 'C07')
         if f.startswith('cmd/ow-sim'): add('C07', 'C05')
-        if f.startswith('sim/') or f.startswith('libopenwater/'): add('C17', 'C03')
+        if f.startswith('sim/') or f.startswith('libopenwater/'): add('C17', 'C03', 'C04', 'C05', 'C07', 'C14')
         if f.startswith('util/fn'): add('C18', 'C11', 'C13')
         if f.startswith('models/rr'): add('C10', 'C15')
         if f.startswith('models/routing'): add('C11', 'C12')
